@@ -124,6 +124,8 @@ def main(argv=None):
     for entry in known:
         if entry['id'] in known_seen:
             lines.append(f'KNOWN-FINDING: property={prop_id} {entry["id"]}: {entry["what"]}')
+    shrunk_buckets = 0
+    max_shrunk = int(os.environ.get('VERIF_MAX_SHRINK', 4))   # the others keep their smallest seen case
     for sig, buck in sorted(tally.buckets.items()):
         case = jsonio.dec(buck['case'])
         fail = core.Failure(buck['clause'], sig, buck['detail'])
@@ -132,7 +134,8 @@ def main(argv=None):
         detail = buck['detail']
         case_enc = buck['case']
         if (buck['origin'] == 'generated' and buck.get('shard') is not None
-                and not sig.endswith('/no_termination')):
+                and not sig.endswith('/no_termination') and shrunk_buckets < max_shrunk):
+            shrunk_buckets += 1
             found = core.shrink_bucket(check, args.tier, seed * 1000 + buck['shard'],
                                        per_shard[buck['shard']], sig,
                                        seconds=int(check.BUDGET[args.tier].get('shrink_s', 45)))
